@@ -20,13 +20,13 @@ def SameShape (H H' : Heap) : Prop := ∀ i, (H.obj i).shape = (H'.obj i).shape
 theorem shape_fields {o o' : PyObj} (h : o.shape = o'.shape) :
     o.tyName = o'.tyName ∧ o.tyRepr = o'.tyRepr ∧ o.isDictExact = o'.isDictExact ∧ o.len = o'.len ∧
     o.dictItems = o'.dictItems ∧ o.seq = o'.seq ∧ o.isExc = o'.isExc ∧ o.excArgs = o'.excArgs ∧
-    o.hasDict = o'.hasDict ∧ o.attrs = o'.attrs := by
+    o.hasDict = o'.hasDict ∧ o.attrs = o'.attrs ∧ o.clsName = o'.clsName := by
   simp only [PyObj.shape, Shape.mk.injEq] at h
   exact h
 
 theorem branchChildren_shape (L : Limits) (pvid depth : Nat) {o o' : PyObj} (h : o.shape = o'.shape) (bs : List Branch) :
     branchChildren L pvid depth o bs = branchChildren L pvid depth o' bs := by
-  obtain ⟨h1, _, h3, _, h5, h6, h7, h8, h9, h10⟩ := shape_fields h
+  obtain ⟨h1, _, h3, _, h5, h6, h7, h8, h9, h10, _⟩ := shape_fields h
   induction bs with
   | nil => rfl
   | cons b bs ih =>
@@ -277,6 +277,22 @@ theorem collectWatches_sim {H H' : Heap} (L : Limits) (hs : SameShape H H') (ws 
         · have := ih (processVariable H L c [] w.expr w.value).cache hmerge
           exact ⟨this.1, this.2.1, by simp [this.2.2.1], this.2.2.2⟩
 
+theorem selfClassFailure_shape {H H' : Heap} (hs : SameShape H H') (fs : List FrameIn) :
+    selfClassFailure H fs = selfClassFailure H' fs := by
+  induction fs with
+  | nil => rfl
+  | cons f fs ih =>
+    have hso : selfOf H f.locals = selfOf H' f.locals := by
+      unfold selfOf
+      rw [(shape_fields (hs f.locals)).2.2.2.2.1]
+      cases List.find? (fun kv => kv.1.isStr && kv.1.text == "self") (H'.obj f.locals).dictItems with
+      | none => rfl
+      | some kv => simp only [(shape_fields (hs kv.2)).1]
+    simp only [selfClassFailure, hso]
+    cases selfOf H' f.locals with
+    | none => exact ih
+    | some o => simp only [(shape_fields (hs o)).2.2.2.2.2.2.2.2.2.2, ih]
+
 /-- an outcome without the texts of its entries -/
 def eraseO : Outcome → Outcome
   | .failed m => .failed m
@@ -302,5 +318,14 @@ theorem collect_shape {H H' : Heap} (hs : SameShape H H') (a : ActionIn) :
     | none =>
       simp only [eraseO, Outcome.ok.injEq, Snapshot.mk.injEq]
       exact ⟨f3, w2, w3⟩
+
+/-- the same for the whole action, class-name reads included -/
+theorem snapshotAction_shape {H H' : Heap} (hs : SameShape H H') (a : ActionIn) :
+    eraseO (snapshotAction H a) = eraseO (snapshotAction H' a) := by
+  unfold snapshotAction
+  rw [selfClassFailure_shape hs]
+  cases selfClassFailure H' a.frames with
+  | some m => rfl
+  | none => exact collect_shape hs a
 
 end Collector
